@@ -753,8 +753,69 @@ func (g *Gen) Bundle() (*Bundle, string) {
 				}
 				f.Elements = append(f.Elements, e)
 			}
+			g.addSameFileRefs(f)
 			b.Files = append(b.Files, f)
+		}
+		// optionally a hand-written proto file that uses the types generated from the j5s sources
+		// (proto importing j5s, by the generated file name <path>.j5s.proto)
+		if g.Cfg.PFiles && g.R.Chance(20) {
+			pf := &PFile{Dir: st.dir, Base: "late" + fmt.Sprint(g.R.Intn(3))}
+			seenImp := map[string]bool{}
+			for _, t := range st.types {
+				if !strings.HasSuffix(t.file, ".j5s.proto") || !g.R.Chance(40) || len(pf.Uses) >= 4 {
+					continue
+				}
+				if !seenImp[t.file] {
+					seenImp[t.file] = true
+					pf.Imports = append(pf.Imports, t.file)
+				}
+				pf.Uses = append(pf.Uses, t.pkg+"."+t.name)
+			}
+			holder := title(pf.Base) + "Holder"
+			if len(pf.Uses) > 0 && !st.symbols[holder] {
+				st.symbols[holder] = true
+				pf.Holder = holder
+				b.PFiles = append(b.PFiles, pf)
+				g.Stats["pfile_using_j5s"]++
+			}
 		}
 	}
 	return b, g.pkgs[len(g.pkgs)-1].name
+}
+
+// addSameFileRefs adds, to some objects of the file, a field referring to a declaration of the
+// same file - possibly a later one, possibly the object itself (forward and self references).
+func (g *Gen) addSameFileRefs(f *File) {
+	if !g.Cfg.Refs {
+		return
+	}
+	var decls []*Nested
+	for _, e := range f.Elements {
+		if e.N != nil {
+			decls = append(decls, e.N)
+		}
+	}
+	for _, e := range f.Elements {
+		if e.Kind != "object" || !g.R.Chance(25) {
+			continue
+		}
+		target := vh.Pick(g.R, decls)
+		sc := scopeOfMessage([]string{e.N.Name}, e.N.Props, e.N.Subs, false)
+		name := g.fieldName(sc)
+		kind := map[string]string{"object": "objref", "oneof": "oneofref", "enum": "enumref"}[target.Kind]
+		tn := target.Name
+		if target.Kind == "enum" {
+			tn = target.Enum.Name
+		}
+		fld := &Field{Kind: kind, Ref: &Ref{Name: tn}}
+		if g.Cfg.Containers && g.R.Chance(20) {
+			fld = &Field{Kind: "array", Item: fld}
+		}
+		e.N.Props = append(e.N.Props, &Property{Name: name, F: fld})
+		if target == e.N {
+			g.Stats["ref_self"]++
+		} else {
+			g.Stats["ref_same_file_any_order"]++
+		}
+	}
 }
